@@ -972,11 +972,14 @@ func (ex *Exec) feasible(st *State) bool {
 	if !ex.prune || (st.depth <= 1 && ex.npaths < 40) {
 		return true
 	}
-	var b strings.Builder
-	b.WriteString(ex.u.Decls())
+	var q strings.Builder
 	for _, a := range st.pc {
-		b.WriteString("(assert " + a + ")\n")
+		q.WriteString("(assert " + a + ")\n")
 	}
+	qs := addUnfoldings(ex.u.Decls(), q.String())
+	var b strings.Builder
+	b.WriteString(sliceDecls(ex.u.Decls(), qs))
+	b.WriteString(qs)
 	ex.nfeas++
 	r := quickCheck(b.String(), 2*time.Second)
 	if r == "unsat" {
